@@ -26,7 +26,16 @@ type Spec struct {
 
 // DFA constructs a deterministic finite automaton (DFA)
 // for recognizing all terminal symbols (tokens) in the grammar of the spec.
-func (s *Spec) DFA() (*auto.DFA, map[grammar.Terminal][]auto.State, error) {
+func (s *Spec) DFA() (d *auto.DFA, m map[grammar.Terminal][]auto.State, err error) {
+	// The automata library walks an automaton with a queue that fails once it has been drained at a block boundary
+	// (as for the chain of states of a literal of 63 or more characters) and panics instead of returning.
+	defer func() {
+		if r := recover(); r != nil {
+			d, m, err = nil, nil, fmt.Errorf("error on building the automaton of the tokens: "+
+				"internal error of the automata library, the longest definitions are too long for it (%v)", r)
+		}
+	}()
+
 	errs := &errors.MultiError{
 		Format: errors.BulletErrorFormat,
 	}
